@@ -67,8 +67,8 @@ def program_diff(param):
     exp = {}
     for m in fdp.service[0].method:
         tname = m.input_type.split(".")[-1]
-        if tname not in msgs:
-            continue
+        if tname not in msgs or m.input_type != f".{fdp.package}.{tname}":
+            continue          # requests of other packages (google.protobuf.Empty, ...) are not diffed here
         from google.api import field_behavior_pb2
         fields = msgs[tname].field
         req = [f for f in fields if field_behavior_pb2.REQUIRED in f.options.Extensions[field_behavior_pb2.field_behavior]]
